@@ -134,6 +134,14 @@ def stats (c : Case) (o : Outcome) : Json :=
     ("pipeOwnedNames", jnat (b2n (Spec.pipeValues c hUserAgent ≠ [] || Spec.pipeValues c hAcceptEncoding ≠ [] || Spec.pipeValues c hCookie ≠ []))),
     ("pipeContinued", jnat (b2n ((untrustedHeaders.any fun k => Spec.pipeContinued c k)))),
     ("decoy", jnat (b2n (c.req.host = "DECOY".toList || c.pipe.headers.any (fun x => x.2 = "DECOY".toList) || c.req.headers.any (fun x => x.2 = "DECOY".toList)))),
+    ("pipeEmpty", jnat (c.pipe.headers.filter fun kv => kv.2 = []).length),
+    ("pipeBlank", jnat (c.pipe.headers.filter fun kv => kv.2 ≠ [] && trimOWS kv.2 = []).length),
+    ("pipePadded", jnat (c.pipe.headers.filter fun kv => trimOWS kv.2 ≠ [] && trimOWS kv.2 ≠ kv.2).length),
+    ("emptyReplacesClient", jnat (c.pipe.headers.filter fun kv =>
+      trimOWS kv.2 = [] && Spec.pipelineOwned c (canonicalKey kv.1) && values ch (canonicalKey kv.1) ≠ []).length),
+    ("pipelineOwnedCollide", jnat (pf.filter fun kv => Spec.pipelineOwned c kv.1 && values ch kv.1 ≠ []).length),
+    ("cookieEmpty", jnat (c.pipe.cookies.filter fun kv => kv.2 = []).length),
+    ("cookieQuoted", jnat (c.pipe.cookies.filter fun kv => sanitizeCookieValue kv.2 ≠ kv.2).length),
     ("cookies", jnat c.pipe.cookies.length),
     ("body", jnat c.req.body.length)]
 
